@@ -14,12 +14,13 @@ from declib2 import fill, Dec2, gen_block, spec, model1, has_zero_offset
 from capi import Lib
 from vlib import Oracle, build_lib, hx, md5
 
-THEOREMS = ["C05_valid_decodes", "C05_valid_decodes_safe", "C05_continue_step", "C05_success_sound", "C05_success_sound_strict_refuted", "C05_inplace_margin", "C05_fast_valid", "C05_fast_usingDict_valid", "C05_fast_continue_step", "C05_inplace_step_footprint", "C05_inplace_footprint_partial"]
+THEOREMS = ["C05_valid_decodes", "C05_valid_decodes_safe", "C05_continue_step", "C05_success_sound", "C05_success_sound_strict_refuted", "C05_inplace_margin", "C05_fast_valid", "C05_fast_usingDict_valid", "C05_fast_continue_step", "C05_inplace_step_footprint", "C05_inplace_footprint_partial", "C05_inplace_decodes", "C05_inplace_decodes_any_margin", "C05_inplace_margin32_refuted"]
 ORACLES = ["block", "dec2"]
 CORRESPONDENCE = [
     "dec_generic/decompress_usingDict model == LZ4_decompress_safe(_usingDict) on valid blocks (return value, whole destination image), fast loop on",
     "dec_generic/decompress_usingDict model == LZ4_decompress_safe(_usingDict) on valid blocks (return value, whole destination image), fast loop off",
     "DecStream.decompress_safe_continue model == LZ4_decompress_safe_continue (return value, destination image, the four LZ4_streamDecode_t fields) in every documented geometry",
+    "DecInplace model (LZ4_decompress_safe with source and destination in ONE memory, input loads from the current contents) == LZ4_decompress_safe run in place at the end of a buffer of n + LZ4_DECOMPRESS_INPLACE_MARGIN(n) bytes (return value, the whole buffer afterwards), both fast-loop builds, capacity n and whole buffer; and at margin base 32 on the F16 witness (both fail alike)",
     "DecFast model (LZ4_decompress_unsafe_generic) == LZ4_decompress_fast / _fast_usingDict on valid blocks (return value, destination image, no out-of-buffer access) and == LZ4_decompress_fast_continue (return value, image, LZ4_streamDecode_t fields) in every geometry"]
 RULE = ("valid blocks generated from sequences by an independent encoder (profiles: generic, short offsets 1..8 x lengths near the buffer end, "
         "zero-literal sequences (also after 64 KB of output), 255-chains for literal and match lengths, matches straddling dictionary and output, "
@@ -140,12 +141,19 @@ def check_valid_block(st, rng, res, blk, D, hist, gen_hist_len, profile, big=Fal
     if gen_hist_len == 0 and len(blk) < n:
         for capmode in (0, 1):
             for bname, dec in st["libs"].items():
-                x = dec.run_inplace(blk, n, capmode, salt)
+                x = dec.run_inplace_whole(blk, n, capmode, salt)
                 if x is None:
                     continue
-                r, img = x
+                r, whole = x
+                img = whole[:n]
                 res["evals"] += 1
                 res["stats"]["api_inplace"] += 1
+                if len(whole) <= 6000 and rng.random() < 0.5:
+                    mr, mok, mimg = declib2.model_inplace(st["dec2"], bname == "fast1", blk, n, capmode, salt)
+                    res["stats"]["model_calls_inplace"] += 1
+                    if mok != "ok" or mr != r or mimg != md5(whole):
+                        fail(res, "corr_fail", "DecInplace model/code disagree: model ret=%d %s code ret=%d buffer %s" % (mr, mok, r, "same" if mimg == md5(whole) else "differs"),
+                             blk=blk.hex(), api="inplace", capmode=capmode, build=bname, salt=salt)
                 if r != n or img != D:
                     fail(res, "prop_fail", "in-place decoding (LZ4_DECOMPRESS_INPLACE_BUFFER_SIZE) returned %d (expected %d), content %s" % (r, n, "equal" if img == D else "DIFFERS"),
                          blk=blk.hex() if len(blk) < 4000 else "len=%d" % len(blk), api="inplace", capmode=capmode, build=bname, profile=profile)
@@ -309,6 +317,7 @@ def run_case(st, case):
                 seqs, l2 = [(16, 16, 33)], 65
             else:
                 first = True
+                produced = 0
                 for s_ in range(rng.choice([1, 1, 2, 3, 4])):
                     ll = rng.choice([rng.randrange(40), 15 + 255 * rng.randrange(4) + rng.randrange(-1, 2), rng.randrange(600)])
                     if first:
@@ -317,6 +326,8 @@ def run_case(st, case):
                     if first and rng.random() < 0.3:
                         ml = 2000 + rng.randrange(3000)
                     off = rng.choice([16, rng.randrange(1, 17), rng.randrange(16, 33) if ll >= 32 or not first else 16])
+                    off = min(off, produced + ll)          # never beyond the output produced so far
+                    produced += ll + ml
                     seqs.append((ll, off, ml)); first = False
                 l2 = rng.choice([5 + rng.randrange(80), 15 + 255 * rng.randrange(5) + rng.randrange(-1, 2), 64 + rng.randrange(1200)])
                 if seqs[-1][2] + l2 < 12:
@@ -330,12 +341,12 @@ def run_case(st, case):
             for (ll, off, ml) in seqs:
                 blk.append((min(ll, 15) << 4) | min(ml - 4, 15))
                 if ll >= 15: blk += ext(ll - 15)
-                blk += rng.randbytes(ll)
+                blk += bytes([7]) * ll if j == 0 else rng.randbytes(ll)     # the F16 witness is the block of C05_inplace_margin32_refuted
                 blk += bytes([off & 255, off >> 8])
                 if ml - 4 >= 15: blk += ext(ml - 4 - 15)
             blk.append(min(l2, 15) << 4)
             if l2 >= 15: blk += ext(l2 - 15)
-            blk += rng.randbytes(l2)
+            blk += bytes([9]) * l2 if j == 0 else rng.randbytes(l2)
             blk = bytes(blk)
             D = spec(st["spec"], "strict", b"", blk)
             if D is None:
@@ -348,12 +359,32 @@ def run_case(st, case):
             res["keys"].add(hashlib.sha1(blk).hexdigest())
             for capmode in (0, 1):
                 for bname, dec in st["libs"].items():
-                    x = dec.run_inplace(blk, n, capmode, rng.randrange(256))
+                    salt = rng.randrange(256)
+                    x = dec.run_inplace_whole(blk, n, capmode, salt)
                     if x is None:
                         continue
-                    r, img = x
+                    r, whole = x
+                    img = whole[:n]
                     res["evals"] += 1
                     res["stats"]["api_inplace"] += 1
+                    # correspondence of Model/DecInplace.v (one memory, loads from the current contents): return value and the
+                    # WHOLE buffer afterwards (over-copied bytes and the consumed input included)
+                    if len(whole) <= 6000:
+                        mr, mok, mimg = declib2.model_inplace(st["dec2"], bname == "fast1", blk, n, capmode, salt)
+                        res["stats"]["model_calls_inplace"] += 1
+                        if mok != "ok" or mr != r or mimg != md5(whole):
+                            fail(res, "corr_fail", "DecInplace model/code disagree: model ret=%d %s code ret=%d buffer %s" % (mr, mok, r, "same" if mimg == md5(whole) else "differs"),
+                                 blk=blk.hex(), api="inplace", capmode=capmode, build=bname, salt=salt)
+                    if j == 0:
+                        # the F16 witness with the former margin base 32: the aliased model and the code must fail alike
+                        y = dec.run_inplace_whole(blk, n, capmode, salt, base=32)
+                        mr, mok, mimg = declib2.model_inplace(st["dec2"], bname == "fast1", blk, n, capmode, salt, base=32)
+                        res["stats"]["model_calls_inplace32"] += 1
+                        if y is None or mok != "ok" or mr != y[0] or mimg != md5(y[1]):
+                            fail(res, "corr_fail", "DecInplace model/code disagree at margin base 32 (F16 witness): model ret=%d %s code ret=%s" % (mr, mok, None if y is None else y[0]),
+                                 blk=blk.hex(), api="inplace32", capmode=capmode, build=bname, salt=salt)
+                        elif bname == "fast1" and mr == n:
+                            fail(res, "harness_error", "F16 witness decodes at margin base 32 in the fast-loop build: the witness no longer witnesses", blk=blk.hex())
                     if r != n or img != D:
                         fail(res, "prop_fail", "in-place decoding in a buffer of LZ4_DECOMPRESS_INPLACE_BUFFER_SIZE(%d) bytes returned %d, content %s (sequences %s, last literals %d)"
                              % (n, r, "equal" if img == D else "DIFFERS", seqs[:4], l2),
